@@ -193,6 +193,12 @@ func (m *UnboundedSegmentedMailbox) Dequeue() *ReceiveContext {
 		if next == nil {
 			return nil
 		}
+		// a successor is only linked once every slot of seg has been claimed,
+		// so producers may have filled the remaining slots since writeIdx was
+		// read above: re-read it instead of dropping those messages with seg
+		if deq < segmentSize {
+			continue
+		}
 		// recycle old head
 		m.head.Store(next)
 		seg.next.Store(nil)
